@@ -252,78 +252,137 @@ func g1Assigned(r *Repo, rep *Report, b *Body, g *Graph, c *ast.CallExpr, o type
 		b *cfg.Block
 		i int
 	}
-	seen := map[*cfg.Block]bool{}
-	work := []item{{blk, idx + 1}}
 	okAll := true
-	for len(work) > 0 && okAll {
-		it := work[len(work)-1]
-		work = work[:len(work)-1]
-		consumed := false
-		for i := it.i; i < len(it.b.Nodes) && !consumed; i++ {
-			n := it.b.Nodes[i]
-			if !usesVar(info, n, v) && !isBareReturnOfNamed(b, n, v) {
-				if as, ok := n.(*ast.AssignStmt); ok && assignsVar(info, as, v) {
-					report("overwritten", c, o, "is overwritten before it is examined", n.Pos())
-					okAll = false
-					consumed = true
-				}
-				if ret, ok := n.(*ast.ReturnStmt); ok {
-					report("unchecked", c, o, "is not examined on a path to this return", ret.Pos())
-					okAll = false
-					consumed = true
-				}
-				continue
-			}
-			switch x := n.(type) {
-			case *ast.ReturnStmt:
-				consumed = true
-			case ast.Expr:
-				// a condition
-				if i == len(it.b.Nodes)-1 && len(it.b.Succs) == 2 {
-					if op, ok := findNilCompare(info, x, v); ok {
+	var walk func(v types.Object, blk *cfg.Block, idx int)
+	walk = func(v types.Object, blk *cfg.Block, idx int) {
+		seen := map[*cfg.Block]bool{}
+		work := []item{{blk, idx}}
+		for len(work) > 0 && okAll {
+			it := work[len(work)-1]
+			work = work[:len(work)-1]
+			consumed := false
+			for i := it.i; i < len(it.b.Nodes) && !consumed; i++ {
+				n := it.b.Nodes[i]
+				if !usesVar(info, n, v) && !isBareReturnOfNamed(b, n, v) {
+					if as, ok := n.(*ast.AssignStmt); ok && assignsVar(info, as, v) {
+						report("overwritten", c, o, "is overwritten before it is examined", n.Pos())
+						okAll = false
 						consumed = true
-						if !g1NonNilSide(r, rep, b, x, op, v, c, o, report) {
-							okAll = false
+					}
+					if ret, ok := n.(*ast.ReturnStmt); ok {
+						report("unchecked", c, o, "is not examined on a path to this return", ret.Pos())
+						okAll = false
+						consumed = true
+					}
+					continue
+				}
+				switch x := n.(type) {
+				case *ast.ReturnStmt:
+					consumed = true
+				case ast.Expr:
+					// a condition
+					if i == len(it.b.Nodes)-1 && len(it.b.Succs) == 2 {
+						if op, ok := findNilCompare(info, x, v); ok {
+							consumed = true
+							if !g1NonNilSide(r, rep, b, x, op, v, c, o, report) {
+								okAll = false
+							}
+							break
 						}
-						break
 					}
-				}
-				// other use: keep walking
-			default:
-				// statement using v: assignment wrapping it (err = fmt.Errorf("..", err)) re-defines v from a call that
-				// is itself checked as its own instance; passing it to a no-return call consumes it.
-				if es, ok := n.(*ast.ExprStmt); ok {
-					if call, ok := es.X.(*ast.CallExpr); ok && isNoReturn(info, call) {
+					// other use: keep walking
+				default:
+					// statement using v: assignment wrapping it (err = fmt.Errorf("..", err)) re-defines v from a call that
+					// is itself checked as its own instance; passing it to a no-return call consumes it.
+					if es, ok := n.(*ast.ExprStmt); ok {
+						if call, ok := es.X.(*ast.CallExpr); ok && isNoReturn(info, call) {
+							consumed = true
+						}
+					}
+					if as, ok := n.(*ast.AssignStmt); ok && assignsVar(info, as, v) {
 						consumed = true
 					}
-				}
-				if as, ok := n.(*ast.AssignStmt); ok && assignsVar(info, as, v) {
-					consumed = true
+					// a plain copy (w := v, w = v, var w T = v): the obligation moves to w
+					if w := copyOf(info, n, v); w != nil && !consumed {
+						consumed = true
+						walk(w, it.b, i+1)
+					}
 				}
 			}
-		}
-		if consumed {
-			continue
-		}
-		if len(it.b.Succs) == 0 {
-			// fell off the function end (or no-return call)
-			if blockEndsNoReturn(info, it.b) {
+			if consumed {
 				continue
 			}
-			report("unchecked", c, o, "is not examined on a path to the end of the function")
-			okAll = false
-			continue
-		}
-		for _, s := range it.b.Succs {
-			if !seen[s] {
-				seen[s] = true
-				work = append(work, item{s, 0})
+			if len(it.b.Succs) == 0 {
+				// fell off the function end (or no-return call)
+				if blockEndsNoReturn(info, it.b) {
+					continue
+				}
+				report("unchecked", c, o, "is not examined on a path to the end of the function")
+				okAll = false
+				continue
+			}
+			for _, s := range it.b.Succs {
+				if !seen[s] {
+					seen[s] = true
+					work = append(work, item{s, 0})
+				}
 			}
 		}
 	}
+	walk(v, blk, idx+1)
 	if okAll {
 		rep.pass("G1")
 	}
+}
+
+// copyOf: n is a statement that does nothing with v but copy it into another local variable, which is returned.
+func copyOf(info *types.Info, n ast.Node, v types.Object) types.Object {
+	isV := func(e ast.Expr) bool {
+		id, ok := ast.Unparen(e).(*ast.Ident)
+		return ok && info.Uses[id] == v
+	}
+	obj := func(id *ast.Ident) types.Object {
+		if id.Name == "_" {
+			return nil
+		}
+		if o := info.Defs[id]; o != nil {
+			return o
+		}
+		return info.Uses[id]
+	}
+	switch x := n.(type) {
+	case *ast.AssignStmt:
+		if len(x.Lhs) == len(x.Rhs) {
+			for i := range x.Rhs {
+				if isV(x.Rhs[i]) {
+					if id, ok := x.Lhs[i].(*ast.Ident); ok {
+						return obj(id)
+					}
+				}
+			}
+		}
+	case *ast.ValueSpec:
+		if len(x.Names) == len(x.Values) {
+			for i := range x.Values {
+				if isV(x.Values[i]) {
+					return obj(x.Names[i])
+				}
+			}
+		}
+	case *ast.DeclStmt:
+		if gd, ok := x.Decl.(*ast.GenDecl); ok {
+			for _, sp := range gd.Specs {
+				if vs, ok := sp.(*ast.ValueSpec); ok && len(vs.Names) == len(vs.Values) {
+					for i := range vs.Values {
+						if isV(vs.Values[i]) {
+							return obj(vs.Names[i])
+						}
+					}
+				}
+			}
+		}
+	}
+	return nil
 }
 
 func blockEndsNoReturn(info *types.Info, b *cfg.Block) bool {
